@@ -50,6 +50,12 @@ def fromHex (s : String) : Option (List UInt8) :=
       | _, _ => none
   go s.toList []
 
+/-- drop a trailing `=<published value>` word (vector replay; only the harness uses it) -/
+def stripExpect (ws : List String) : List String :=
+  match ws.getLast? with
+  | some w => if w.startsWith "=" ∧ ws.length > 1 then ws.dropLast else ws
+  | none => ws
+
 def hexOrDash (bs : List UInt8) : String := if bs.isEmpty then "-" else toHex bs
 
 end Driver
